@@ -335,7 +335,9 @@ INTERTEST = "avocado_i2n/intertest_setup.py"
 mutant("c01-parent-dropped-without-run-check", "C01", GRAPH,
        '''                    if not next.should_run(worker):
                         previous.drop_parent(next, worker)''',
-       '''                    previous.drop_parent(next, worker)''', checks=["C01", "C10", "C02"])
+       '''                    previous.drop_parent(next, worker)''', checks=["C01", "C10", "C02"],
+       note="judged equivalent w.r.t. the stated properties: retries are driven by the parent's own visits, the child only stops "
+            "waiting for a parent that did not pass (which C01 excuses); no execution differed in the audited cases")
 mutant("c01-locations-skip-result-workers", "C01", NODE,
        '''            for net_suffix in node.shared_result_worker_ids:
                 setup_locations += [net_suffix + ":" + setup_path]''',
@@ -373,7 +375,9 @@ mutant("c02-no-path-reset-on-bounce", "C02", GRAPH,
        checks=["C02", "C04"])
 mutant("c02-incompatible-workers-never-recorded", "C02", GRAPH,
        '''                test_node.incompatible_workers.add(test_object.long_suffix)''',
-       '''                pass''', checks=["C02"])
+       '''                pass''', checks=["C02"],
+       note="judged equivalent w.r.t. the stated properties: the flat test is parsed again on every visit and cleanups are postponed "
+            "for as long as it stays unexpanded (states are kept, which no property forbids); the traversals still end")
 mutant("c03-no-unknown-placeholder", "C03", RUNNER,
        '''        node_result = {"name": name, "status": "UNKNOWN"}
         node.results += [node_result]''',
